@@ -14,8 +14,12 @@ def replay_case(case, oracle):
     H.bind(case.get("p") or REC.BN128)
     prog = case["prog"]
     prog = {"expr": _tuplify(prog["expr"]), "kinds": list(prog["kinds"])}
-    o = E.execute(prog, tuple(case["vals"]), case["mode"], case["n"], True, case.get("p"))
-    viols = list(oracle(prog, tuple(case["vals"]), case["mode"], case["n"], case.get("p") or REC.BN128, o, {}) or ())
+    o = E.execute(prog, tuple(case["vals"]), case["mode"], case["n"], True, case.get("p"), True)
+    extra = {}
+    viols = list(oracle(prog, tuple(case["vals"]), case["mode"], case["n"], case.get("p") or REC.BN128, o, extra) or ())
+    for pend in extra.get("pending", []):
+        viols.append(({"op": pend[0], "klass": "raises-in-domain", "exc": pend[2], "signs": pend[1]},
+                      "raises %s (%s) inside the documented domain" % (pend[2], pend[5])))
     return {"program": O.expr_str(prog["expr"], prog["kinds"]), "inputs": case["vals"],
             "mode": case["mode"], "bitlength": case["n"],
             "outcome": {"status": o.status, "exc": o.exc, "msg": o.excmsg, "value": repr(o.value),
